@@ -26,6 +26,9 @@ type C11Case struct {
 	// FinishAfter: for the Writer entry points, Finish is also called after the
 	// values with these indexes (several datagrams from one writer).
 	FinishAfter []int `json:"finish_after,omitempty"`
+	// ForeignSIDs: every token handed to the writer carries, next to its text, a
+	// symbol ID from an unrelated table (as tokens obtained from a Reader do)
+	ForeignSIDs bool `json:"foreign_sids,omitempty"`
 }
 
 var c11Entries = []string{"NewBinaryWriter(ssts)", "NewBinaryWriterLST", "MarshalBinary(ssts)", "MarshalBinaryLST"}
@@ -112,6 +115,10 @@ func tokensOf(v model.Value, name *model.Sym) []model.Sym {
 }
 
 func runC11(c C11Case) string {
+	if c.ForeignSIDs {
+		drive.ForeignSID = func(text string) int64 { return int64(1 + model.DigestBytes("sid", []byte(text))%24) }
+		defer func() { drive.ForeignSID = nil }()
+	}
 	st := Stat("C11")
 	fixed := c.Entry == 1 || c.Entry == 3
 	tab := c11Table(c)
@@ -476,6 +483,7 @@ func genC11(t *rapid.T) C11Case {
 		c.Vals = append(c.Vals, v)
 	}
 	c.Vals = gen.SanitizeTop(c.Vals)
+	c.ForeignSIDs = !marshal && gen.Chance(t, 25)
 	if !marshal && gen.Chance(t, 40) {
 		for i := range c.Vals {
 			if gen.Chance(t, 40) {
